@@ -163,7 +163,7 @@ def harnesses(tier):
         addb("n=3+3,folds=2,read chunk,task order", dict(sizes=[3, 3], folds=2, vary="read", sched=True), 0.01)
         addb("n=4,folds=2,parquet vs text,prediction chunk", dict(sizes=[4], folds=2, vary="prediction", suffix=".parquet"), 0.01)
         addc("n=4,dedup,confidence chunk", dict(n=4, dedup=True, vary="confidence"), 0.005)
-        addc("n=4,no dedup,confidence chunk", dict(n=4, dedup=False, vary="confidence"), 0.005)
+        addc("n=3,no dedup,confidence+merge chunk", dict(n=3, dedup=False, vary="both"), 0.005)
         addc("n=3,dedup,confidence+merge chunk", dict(n=3, dedup=True, vary="both"), 0.005)
         addc("n=3,dedup,parquet vs text", dict(n=3, dedup=True, vary="confidence", suffix=".parquet"), 0.005)
     return hs
